@@ -5,7 +5,7 @@ PROP = {'id': 'C17',
                'JobConfiguration.check_job_estimated_run_minutes',
                'JobConfiguration.check_job_runtimes',
                'JobSubmitter.run_checks'],
- 'native': ['JobSubmitter.run_checks', 'JobContainerByName.add_job'],
+ 'native': ['JobSubmitter.run_checks', 'JobContainerByName.add_job', '_to_timedelta'],
  'lemmas': [],
  'records': ['JobConfiguration', 'JobContainerByName'],
  'min_obligations': 40,
@@ -14,11 +14,13 @@ PROP = {'id': 'C17',
                  'run_checks: accepted <=> at least one group, distinct group names, every job assigned to a listed group, equal hpc_type / max_nodes / '
                  'poll_interval; it is only checked at run time on generated configurations (bounded)',
                  'iter_jobs yields the jobs in insertion order (ghost list view g_joblist of JobContainerByName._jobs)',
-                 'SubmitterParams.get_wall_time parses HH:MM:SS (ghost wall_time_s); timedelta(minutes=m) is 60*m seconds'],
+                 'SubmitterParams.get_wall_time parses HH:MM:SS / D-HH:MM:SS (ghost wall_time_s; bounded harness _to_timedelta); timedelta(minutes=m) is 60*m '
+                 'seconds'],
  'not_decided': ['the JSON round trip (serialize / dump / create_config_from_file run through pydantic and json): BOUNDED only - generated configurations, '
                  'compared field by field after reloading',
                  'JobSubmitter.create writes config.json only after run_checks returned (two statements; exercised by the bounded harness, not under contract)',
-                 'walltime given as D-HH:MM:SS: _to_timedelta keeps only HH:MM:SS (outside the generated domain; noted in DESIGN.md section 8)'],
+                 'walltime text -> seconds (_to_timedelta, a regular expression): BOUNDED only (HH:MM:SS and D-HH:MM:SS generated); other SLURM forms '
+                 '(minutes, MM:SS, D-HH) are not accepted by the parser and not generated'],
  'explanation': 'PROVED for all configurations: add_job rejects exactly a second job with a stored name and otherwise stores it without touching other '
                 'entries; check_job_dependencies raises InvalidConfiguration exactly when some blocker is not a configured job; '
                 "check_job_estimated_run_minutes exactly when a job of the group lacks an estimate; check_job_runtimes exactly when some job's estimate "
